@@ -117,9 +117,59 @@ def run(check, prog):
     from . import c05 as _c05p
     _c05p.pin_exact(check, prog)
     nan_propagates(check, prog)
+    zero_radius_refused(check, prog)
 
 
 # ----------------------------------------------------------------------
+def zero_radius_refused(check, prog):
+    """F1d: "the result is finite": the Lorenz-Mie coefficient routines divide by
+    each layer's size parameter, so a radius of zero *anywhere* -- the core of a
+    layered sphere as much as a uniform sphere -- gives NaN coefficients and a NaN
+    field at every pixel.  Mie._scat_coeffs refuses such a scatterer; the refusal
+    has to look at every radius (`any`, or the smallest), not at the largest."""
+    q = 'holopy.scattering.theory.mie.Mie._scat_coeffs'
+    fd = prog.func(q)
+    loc = prog.loc(q, fd)
+    it = Interp(prog, max_depth=0)
+    res = it.analyze(q)
+    s_ = sym(fd.args.args[1].arg)
+    hits = []
+    for o in res.raises:
+        if 'InvalidScatterer' not in show(o.value):
+            continue
+        for t, pol in o.cond:
+            zero_cmp = [x for x in subterms(t) if x[0] == 'cmp' and x[1] in ('==', '<=')
+                        and x[3] == num(0)]
+            if zero_cmp and pol is True and any(
+                    y == ('attr', s_, 'r') or y[0] in ('phi',) for y in subterms(t)):
+                hits.append((t, pol))
+    check.need('refusal of a zero radius in Mie._scat_coeffs', len(hits), 1,
+               'F1-zero-radius-refused', 'Mie._scat_coeffs',
+               'a scatterer with a radius of zero is refused', loc,
+               missing='no InvalidScatterer is raised on a comparison of the radii with '
+               '0: the coefficient routines divide by the size parameter')
+    for t, pol in hits:
+        every = False
+        for x in subterms(t):
+            # (r == 0).any() / np.any(r == 0) / r.min() == 0 / min(r) == 0
+            if x[0] == 'call' and ((isinstance(x[1], tuple) and x[1][0] == 'attr' and
+                                    x[1][2] == 'any') or x[1] in ('numpy.any', 'any')):
+                every = True
+            if x[0] == 'cmp' and x[3] == num(0):
+                l = x[2]
+                if l[0] == 'call' and ((isinstance(l[1], tuple) and l[1][0] == 'attr' and
+                                        l[1][2] == 'min') or
+                                       l[1] in ('numpy.min', 'min', 'numpy.amin')):
+                    every = True
+        check.require(every and pol is True, 'F1-zero-radius-refused',
+                      'Mie._scat_coeffs refusal',
+                      'the refusal fires if any radius is zero', loc,
+                      fail_detail='refused when %s%s: only an all-zero (or largest) '
+                      'radius is caught -- Sphere(n=(1.45, 1.59), r=(0, 0.5)) passes and '
+                      'every pixel of its hologram is NaN' % (
+                          '' if pol else 'not ', show(t)[:100]))
+
+
 def nan_propagates(check, prog):
     """F1c: a field that could not be computed is not a dark pixel.  The hologram
     and the intensity are sums of squared moduli over the transverse components of
@@ -725,7 +775,10 @@ def f5_state(check, prog):
             for e, st_, rs in wsp:
                 if e['kind'] not in ('augassign', 'setitem', 'mutcall'):
                     continue
-                if ('fresh',) in rs or ('maybe-fresh',) in rs:
+                # (a value that is the argument on one path and freshly computed
+                # on another -- `if amn is None: amn = ...` -- is the argument
+                # whenever the caller supplies it)
+                if ('maybe-fresh',) in rs:
                     continue
                 for r_ in rs:
                     if r_[0] == 'param' and r_[1] != selfname and r_[1] in params_:
